@@ -146,6 +146,48 @@ def caseGo (whens : List (Expr × Expr)) (els : Option Expr) (env : Env) (st : C
 def caseBatch (whens : List (Expr × Expr)) (els : Option Expr) (env : Env) (rows : List Row) : Except RtErr (List Val) :=
   caseGo whens els env (rows.map (fun r => (r, none)))
 
+/-! ## AND / OR with pre-selection (`check_short_circuit` → `PreSelection` in expressions/binary.rs)
+
+  The left operand is a NULL-free boolean column. For AND the rows where it is TRUE (for OR: FALSE)
+  are the only ones whose result depends on the right operand; when they are at most 20 % of the
+  batch the right operand is evaluated on those rows only (`filter_record_batch`), and
+  * if its values there are NULL-free and uniform the result collapses
+    (`uniform_pre_selection_result`: all `fill_value`, or the left column itself),
+  * otherwise they are scattered back, the other rows being `fill_value` (FALSE for AND, TRUE for OR).
+  A row is `(left value, right value)`. -/
+
+def selMask (isAnd l : Bool) : Bool := if isAnd then l else !l
+def fillTri (isAnd : Bool) : Tri := if isAnd then .f else .t
+
+/-- the right operand's values on the selected rows (what `self.right.evaluate(&selection_batch)` sees) -/
+def selectedRhs (isAnd : Bool) : List (Bool × Tri) → List Tri
+  | [] => []
+  | (l, r) :: rows => if selMask isAnd l then r :: selectedRhs isAnd rows else selectedRhs isAnd rows
+
+/-- `pre_selection_scatter` -/
+def scatterSel (isAnd : Bool) : List Bool → List Tri → List Tri
+  | [], _ => []
+  | l :: ls, sel =>
+    if selMask isAnd l then
+      match sel with
+      | r :: rs => r :: scatterSel isAnd ls rs
+      | [] => .u :: scatterSel isAnd ls []
+    else fillTri isAnd :: scatterSel isAnd ls sel
+
+/-- the `PreSelection` arm of `BinaryExpr::evaluate` -/
+def preSelect (isAnd : Bool) (lhs : List Bool) (sel : List Tri) : List Tri :=
+  if sel.all (· != .u) then
+    if sel.all (· == .t) then            -- `!has_false()` : rhs_value = true
+      (if isAnd then lhs.map Tri.ofBool else lhs.map (fun _ => Tri.t))
+    else if sel.all (· == .f) then       -- `!has_true()`  : rhs_value = false
+      (if isAnd then lhs.map (fun _ => Tri.f) else lhs.map Tri.ofBool)
+    else scatterSel isAnd lhs sel
+  else scatterSel isAnd lhs sel
+
+/-- the Kleene table, row by row -/
+def kleene (isAnd : Bool) (l : Bool) (r : Tri) : Tri :=
+  if isAnd then Tri.and (Tri.ofBool l) r else Tri.or (Tri.ofBool l) r
+
 /-! ## LIKE: declarative semantics -/
 
 /-- `Matches p s`: the pattern tokens can be laid over the string: `%` covers any (possibly empty)
